@@ -10,10 +10,12 @@
 (* per-class error placeholder.                                             *)
 (*                                                                         *)
 (* One behaviour = one configuration (chosen in Init) + any history.  The   *)
-(* explored part is bounded by Weight(S) <= MaxWeight (number of state       *)
-(* components that differ from the initial state): it contains every state  *)
-(* reachable by MaxWeight state-changing operations and ALL transitions     *)
-(* between such states (histories of any length).                           *)
+(* explored part is bounded by Weight(S) <= MaxWeight (how many of: cached   *)
+(* canvas of widget 1 / 2, placeholder of the base class / the subclass,     *)
+(* failing image differ from the initial state; 5 = everything): it         *)
+(* contains every state reachable by MaxWeight such changes and ALL          *)
+(* transitions between such states (histories of any length).  The laws are *)
+(* listed in notes/X04.md (L1-L14, deviations D1-D3).                        *)
 (***************************************************************************)
 EXTENDS UrwidWidgetCore, TLC, Json
 
@@ -294,7 +296,6 @@ FixedModeRejected == [][FixedModeRejectedStep]_vars
 (* Edge dump (spec -> code replay): one STATE line per distinct state with its  *)
 (* projection, one compact EDGE line per generated transition                   *)
 
-SzKey(sz) == sz
 Key(s) == <<cid, s.isz.k, s.isz.w, s.isz.h, s.isz.m, B(s.has[2]),
             s.cache[1].sz, s.cache[1].kind, s.cache[2].sz, s.cache[2].kind,
             s.ph[1], s.ph[2], B(s.fail)>>
